@@ -121,9 +121,12 @@ class KsSession:
             # remaining time is compared through a window (clock granularity; exact arithmetic is C02's theorem)
             tol = 150 if name == "PTTL" else 1
             mi, mm, ms = (re.fullmatch(r"\( i (\d+) \)", x) for x in (impl, model, spec))
-            if mi and mm and abs(int(mi.group(1)) - int(mm.group(1))) <= tol:
+            far = 10 ** 11 if name == "PTTL" else 10 ** 8      # beyond ~3 years: "far future" (the code saturates huge TTLs)
+            def close(a, b):
+                return abs(a - b) <= tol or (a >= far and b >= far)
+            if mi and mm and close(int(mi.group(1)), int(mm.group(1))):
                 model = impl
-            if mi and ms and abs(int(mi.group(1)) - int(ms.group(1))) <= tol:
+            if mi and ms and close(int(mi.group(1)), int(ms.group(1))):
                 spec = impl
         self.last_spec, self.last_same = spec, same == "same"
         self.history.append((args, impl, model, line))
